@@ -33,7 +33,7 @@ RULE = ("the C03 history space with header variation: BOOTID/CONFIGID/custom/vol
 EXHAUSTIVE = {"quick": False, "thorough": False}
 ASSUMPTIONS = [
     "header names and values are ASCII",
-    "timestamps are integers (microseconds)",
+    "timestamps are integers (microseconds); max-age <= 1800 s in the generator, so the saturating valid_to sums are never taken (not modelled)",
     "URLs follow scheme://[user@]host[:port]/path with host a dotted quad, a name or a bracketed IPv6 literal",
     "callbacks do not mutate the device or the headers",
 ]
